@@ -14,7 +14,7 @@ use crate::{
     osu::{self, Profile},
     rng::{hash_str, Rng},
     runner::{api as bracket, guard, Ctx},
-    sets::{self, SetDomain},
+    sets::{self},
 };
 
 /// What the compact list is documented to store for a pushed value: positive values as is,
@@ -523,7 +523,7 @@ pub fn case(ctx: &mut Ctx, idx: u64) {
         for mode in modes {
             // the lifetime checks only compare a calculator with itself, so the settings may be anything the API accepts,
             // including a Difficulty that still carries passed_objects (its meaning for a gradual calculator is irrelevant here)
-            let spec = sets::gen_setspec(&mut rng, mode, SetDomain::Game);
+            let spec = sets::gen_setspec_wide(&mut rng, mode, &map);
             let spec = if rng.chance(0.4) {
                 ctx.count("lifetimes:difficulty-carries-passed_objects");
                 spec.with_passed(rng.below(map.hit_objects.len() as u64 + 2) as u32)
